@@ -890,14 +890,41 @@ func (g *c05DocGen) member(f *c05Fld, i, depth int, m *[]c05KV) {
 
 // ---------------- cases ----------------
 
-type c05Case struct {
+// c05Warm is one earlier call in the same process, through another entry point,
+// into an unrelated shape (cross-call history: package-level unmarshalers, caches).
+type c05Warm struct {
+	EP string   `json:"ep"` // confjson confyaml key yaml json
 	S  []c05Fld `json:"s"`
 	D  c05JV    `json:"d"`
-	EP string   `json:"ep,omitempty"` // entry point: "" = UnmarshalJsonBytes, "key" = UnmarshalKey(map), "reader" = UnmarshalJsonReader
-	Y  int      `json:"y,omitempty"`  // YAML style
+}
+
+type c05Case struct {
+	W  []c05Warm `json:"w,omitempty"` // warm-up calls made before the judged call, in this order
+	S  []c05Fld  `json:"s"`
+	D  c05JV     `json:"d"`
+	EP string    `json:"ep,omitempty"` // entry point: "" = UnmarshalJsonBytes, "key" = UnmarshalKey(map), "reader" = UnmarshalJsonReader
+	Y  int       `json:"y,omitempty"`  // YAML style
 }
 
 var c05AllStyles = []string{"", "", "camel", "camel", "camel", "snake", "title", "kebab", "lower", "usnake"}
+
+func c05GenWarmups(rt *rapid.T) []c05Warm {
+	n := c05W(rt, "nwarm", []string{"0", "1", "2"}, []int{40, 35, 25})
+	var ws []c05Warm
+	for i := 0; i < int(n[0]-'0'); i++ {
+		w := c05Warm{EP: c05Pick(rt, "warmep", []string{"confjson", "confjson", "confyaml", "key", "yaml", "json"})}
+		tag := "json"
+		if w.EP == "key" {
+			tag = "key"
+		}
+		cfg := &c05GenCfg{tag: tag, keyStyles: c05AllStyles, maxDepth: 2}
+		w.S = c05GenFields(rt, cfg, 1, 3, "")
+		g := &c05DocGen{rt: rt, plain: rapid.IntRange(0, 3).Draw(rt, "warmplain") != 0, hostile: 6}
+		w.D = g.object(w.S, 1)
+		ws = append(ws, w)
+	}
+	return ws
+}
 
 func c05GenCase(rt *rapid.T) c05Case {
 	ep := c05W(rt, "ep", []string{"", "key", "reader"}, []int{70, 20, 10})
@@ -915,6 +942,7 @@ func c05GenCase(rt *rapid.T) c05Case {
 	}
 	c.D = g.object(c.S, 1)
 	c.Y = rapid.IntRange(0, 1).Draw(rt, "yamlstyle")
+	c.W = c05GenWarmups(rt)
 	return c
 }
 
